@@ -211,6 +211,7 @@ func (r *Reader) initFields() error {
 	uname := map[int]string{}
 	gname := map[int]string{}
 	var lastRegEnt *TOCEntry
+	var lastChunkOffset int64
 	var chunkTopIndex int
 	for i, ent := range r.toc.Entries {
 		ent.Name = cleanEntryName(ent.Name)
@@ -228,9 +229,17 @@ func (r *Reader) initFields() error {
 			lastRegEnt = ent
 		}
 		if ent.isDataType() && lastRegEnt != nil &&
-			(ent.ChunkOffset > lastRegEnt.Size || ent.ChunkSize > lastRegEnt.Size-ent.ChunkOffset) {
+			(ent.ChunkOffset > lastRegEnt.Size || ent.ChunkSize > lastRegEnt.Size-ent.ChunkOffset ||
+				(lastRegEnt.Size > 0 && ent.ChunkOffset == lastRegEnt.Size)) {
 			return fmt.Errorf("invalid entry %q: chunk (offset=%d, size=%d) exceeds the file size %d",
 				ent.Name, ent.ChunkOffset, ent.ChunkSize, lastRegEnt.Size)
+		}
+		if ent.Type == "chunk" && lastRegEnt != nil && ent.ChunkOffset <= lastChunkOffset {
+			return fmt.Errorf("invalid entry %q: chunk offset %d doesn't follow the previous chunk (offset=%d)",
+				ent.Name, ent.ChunkOffset, lastChunkOffset)
+		}
+		if ent.isDataType() {
+			lastChunkOffset = ent.ChunkOffset
 		}
 		if ent.Type == "chunk" {
 			ent.Name = lastPath
